@@ -175,7 +175,9 @@ def check(run, driver):
         if len(hoeff_plan) % 2 == 0:       # labelled frame whose labels are in no particular order: u and v denote the series actually measured
             import pandas as pd
             names = [["temp", "load", "flow", "aux"], [30, 10, 20, 0], [("s", 2), ("a", 9), ("m", 0), ("b", 1)]][(len(hoeff_plan) // 2) % 3][:n]
-            arg = pd.DataFrame(data.copy(), columns=pd.Index(names, tupleize_cols=False))
+            # (row labels are names too, not positions: chunks concatenated with their own 0..k index, or a reversed one)
+            ridx = np.concatenate([np.arange(T // 2), np.arange(T - T // 2)]) if (len(hoeff_plan) // 2) % 2 else np.arange(T)[::-1] * 3
+            arg = pd.DataFrame(data.copy(), columns=pd.Index(names, tupleize_cols=False), index=ridx)
         with quiet():
             G = discover_network(arg, **kw)
         pos = {nm: i for i, nm in enumerate(names)}
